@@ -94,6 +94,45 @@ def supAll : Forest → Forest → Bool
 termination_by structural f => f
 end
 
+/-- the name-only view of a resource leaf: what `SubtypeChecker::resource` compares -/
+def eraseR (r : Res) : Res := { uid := 0, idx := 0, name := r.name }
+
+mutual
+/-- the tree with every resource identity replaced by the resource's name -/
+def eraseRes : Tree → Tree
+  | .own r => .own (eraseR r)
+  | .borrow r => .borrow (eraseR r)
+  | .resource r => .resource (eraseR r)
+  | .none => .none
+  | .prim p => .prim p
+  | .flags ns => .flags ns
+  | .enum ns => .enum ns
+  | .module m => .module m
+  | .tuple f => .tuple (eraseResF f)
+  | .variant f => .variant (eraseResF f)
+  | .record f => .record (eraseResF f)
+  | .instance f => .instance (eraseResF f)
+  | .list t => .list (eraseRes t)
+  | .fixedList t n => .fixedList (eraseRes t) n
+  | .option t => .option (eraseRes t)
+  | .stream t => .stream (eraseRes t)
+  | .future t => .future (eraseRes t)
+  | .value t => .value (eraseRes t)
+  | .type t => .type (eraseRes t)
+  | .result a b => .result (eraseRes a) (eraseRes b)
+  | .func a ps r => .func a (eraseResF ps) (eraseRes r)
+  | .component i e => .component (eraseResF i) (eraseResF e)
+termination_by structural t => t
+def eraseResF : Forest → Forest
+  | .nil => .nil
+  | .cons n t r => .cons n (eraseRes t) (eraseResF r)
+termination_by structural f => f
+end
+
+/-- the relation `SubtypeChecker` decides on all kinds: `sub` on the name-only views.  It is
+`sub` itself on resource-free trees (`eraseRes_of_resourceFree`). -/
+def subNames (a b : Tree) : Bool := sub (eraseRes a) (eraseRes b)
+
 /-- C07 specification on item kinds of two collections: both unfold and the trees are related -/
 def subKinds (at_ : Types) (a : ItemKind) (bt : Types) (b : ItemKind) : Option Bool :=
   match at_.unfold a, bt.unfold b with
